@@ -136,7 +136,7 @@ def globals_obligations(S):
             src = open(os.path.join(root, sub, fn)).read()
             tree = ast.parse(src)
             classes = {c.name for c in ast.walk(tree) if isinstance(c, ast.ClassDef)}
-            modnames = {t.id for st in tree.body if isinstance(st, ast.Assign) for t in st.targets if isinstance(t, ast.Name)}
+            modnames = {t.id for st in tree.body if isinstance(st, ast.Assign) for t in st.targets if isinstance(t, ast.Name)} | {st.target.id for st in tree.body if isinstance(st, ast.AnnAssign) and isinstance(st.target, ast.Name)}
             for f in [x for x in ast.walk(tree) if isinstance(x, (ast.FunctionDef, ast.AsyncFunctionDef))]:
                 n += 1
                 for node in ast.walk(f):
@@ -148,11 +148,24 @@ def globals_obligations(S):
                             if isinstance(t, ast.Attribute) and isinstance(t.value, ast.Name) and t.value.id in classes:
                                 if not (sub == "core" and fn == "equilibrium.py" and t.attr == "getMsg"):
                                     bad.append("%s/%s:%d class attribute store %s" % (sub, fn, node.lineno, ast.unparse(t)))
+                    # mutation of a module-level container (a cache that outlives one build): store through
+                    # a subscript / attribute of a module-level name, or a mutating method call on it
+                    local_names = {a.arg for a in f.args.args + f.args.kwonlyargs} | {t.id for x in ast.walk(f) if isinstance(x, (ast.Assign, ast.AugAssign, ast.For, ast.With, ast.comprehension)) for t in ast.walk(x.targets[0] if isinstance(x, ast.Assign) else (x.target if hasattr(x, "target") else x)) if isinstance(t, ast.Name) and isinstance(t.ctx, ast.Store)}
+                    if isinstance(node, (ast.Assign, ast.AugAssign, ast.Delete)):
+                        ts = node.targets if isinstance(node, (ast.Assign, ast.Delete)) else [node.target]
+                        for t in ts:
+                            base = t
+                            while isinstance(base, (ast.Subscript, ast.Attribute)):
+                                base = base.value
+                            if base is not t and isinstance(base, ast.Name) and base.id in modnames and base.id not in local_names:
+                                bad.append("%s/%s:%d store into module-level object %s" % (sub, fn, node.lineno, ast.unparse(t)))
+                    if isinstance(node, ast.Call) and isinstance(node.func, ast.Attribute) and isinstance(node.func.value, ast.Name) and node.func.value.id in modnames and node.func.value.id not in local_names and node.func.attr in ("append", "extend", "insert", "update", "setdefault", "add", "pop", "popitem", "clear", "remove", "discard", "sort", "reverse"):
+                        bad.append("%s/%s:%d mutating call on module-level object %s" % (sub, fn, node.lineno, ast.unparse(node.func)))
                     if isinstance(node, ast.Call):
                         txt = ast.unparse(node.func)
                         if any(k in txt for k in ("uuid", "random", "time.time", "datetime", "date.today", "getpid", "os.urandom", "default_rng")):
                             nondet.append("%s/%s:%d %s" % (sub, fn, node.lineno, txt))
-    S.static_vc("frame", "hypnotoad.core.mesh:Mesh.geometry", "no function of core/cases/utils/geqdsk stores to a module global or a class attribute (%d functions scanned)" % n, not bad, detail=repr(bad[:5]), kind="ast-frame", model=dict(findings=bad[:5]) if bad else None)
+    S.static_vc("frame", "hypnotoad.core.mesh:Mesh.geometry", "no function of core/cases/utils/geqdsk stores to a module global, a class attribute, or into a module-level container (%d functions scanned)" % n, not bad, detail=repr(bad[:5]), kind="ast-frame", model=dict(findings=bad[:5]) if bad else None)
     allowed = ("uuid", "date.today")
     extra = [x for x in nondet if not any(a in x for a in allowed)]
     S.static_vc("frame", "hypnotoad.core.mesh:BoutMesh.writeGridfile", "sources of nondeterminism in the package are exactly uuid (grid_id) and today's date (geqdsk header)", not extra, detail=repr(nondet), kind="ast-frame", model=dict(unexpected=extra) if extra else None)
